@@ -283,48 +283,65 @@ func checkSuccs(t hx.TB, test, where, ctx string, term ir.Terminator, want []*ir
 	if !ok || len(want) == 0 {
 		return
 	}
+	same := func(x, y []*ir.Block) bool {
+		if len(x) != len(y) {
+			return false
+		}
+		for i := range x {
+			if x[i] != y[i] {
+				return false
+			}
+		}
+		return true
+	}
+	nb := ir.NewBlock("verif.fresh.block")
 	for _, slot := range u.Operands() {
 		old, isBlock := (*slot).(*ir.Block)
 		if !isBlock {
 			continue
 		}
-		// pick another block of the function as the new target
-		var other *ir.Block
-		for _, b := range f.Blocks {
-			if b != old {
-				other = b
-				break
-			}
-		}
-		if other == nil {
-			return
-		}
-		// expected successor list after the rewrite: replace the first occurrence that belongs to this slot
-		*slot = other
+		// Write a fresh block through the slot. Where it shows up in the printed terminator says what the slot
+		// is: a branch target (for invoke and callbr: after `to label`), or a block passed as an argument or
+		// operand-bundle input, which is an operand but not a successor.
+		*slot = nb
 		var after []*ir.Block
+		var text string
 		pp := lx.Guard(func() { after = term.Succs() })
+		lx.Guard(func() { text = u.LLString() })
 		*slot = old
 		if pp != nil {
-			hx.Fail(t, test, "ll", ctx, "%s (%T): Succs() panics after a target was rewritten through its slot: %s", where, term, pp)
+			hx.Fail(t, test, "ll", ctx, "%s (%T): Succs() panics after a block was written through an operand slot: %s", where, term, pp)
 		}
-		found := false
-		for _, b := range after {
-			if b == other {
-				found = true
+		branchPart := text
+		switch term.(type) {
+		case *ir.TermInvoke, *ir.TermCallBr:
+			if i := strings.LastIndex(text, "to label "); i >= 0 {
+				branchPart = text[i:]
 			}
 		}
-		if !found {
-			hx.Fail(t, test, "ll", ctx, "%s (%T): a branch target was rewritten through its operand slot (%s -> %s) but Succs() still reports [%s]", where, term, old.Ident(), other.Ident(), names(after))
+		isTarget := strings.Contains(branchPart, "%verif.fresh.block")
+		if isTarget {
+			diff, at := 0, -1
+			if len(after) == len(want) {
+				for i := range after {
+					if after[i] != want[i] {
+						diff++
+						at = i
+					}
+				}
+			}
+			if len(after) != len(want) || diff != 1 || after[at] != nb {
+				hx.Fail(t, test, "ll", ctx, "%s (%T): a branch target was rewritten through its operand slot (%s -> %s) but Succs() reports [%s] (before: [%s])", where, term, old.Ident(), nb.Ident(), names(after), names(want))
+			}
+		} else if !same(after, want) {
+			hx.Fail(t, test, "ll", ctx, "%s (%T): a block that is an argument or bundle input, not a branch target, was rewritten through its operand slot (%s -> %s) and Succs() changed from [%s] to [%s]", where, term, old.Ident(), nb.Ident(), names(want), names(after))
 		}
-		// restore and make sure the view is back
+		// restored: the view must be back
 		var back []*ir.Block
 		lx.Guard(func() { back = term.Succs() })
-		for i := range back {
-			if i < len(want) && back[i] != want[i] {
-				hx.Fail(t, test, "ll", ctx, "%s (%T): after restoring the target Succs() reports [%s], want [%s]", where, term, names(back), names(want))
-			}
+		if !same(back, want) {
+			hx.Fail(t, test, "ll", ctx, "%s (%T): after restoring the target Succs() reports [%s], want [%s]", where, term, names(back), names(want))
 		}
-		return
 	}
 }
 
@@ -546,6 +563,90 @@ func TestReplay(t *testing.T) {
 }
 
 // TestFuncletCatalogue covers the five funclet EH kinds the generator does not produce.
+
+// TestBlocksAsArguments: a basic block may be passed like any other value: as a call or invoke argument
+// of type label and as an operand-bundle input (llvm-as-14 accepts this). Such a block is an operand of
+// the user, with a live slot, but it is not a branch target: the successor list of the invoke stays
+// [normal destination, unwind destination].
+func TestBlocksAsArguments(t *testing.T) {
+	const test = "BlocksAsArguments"
+	hx.Rule(test, "hand-written module in which basic blocks are passed as label-typed arguments and operand-bundle inputs of an invoke and a call: completeness, liveness and exactness of the operand slots as everywhere, and the successor list of every terminator must be exactly its branch targets in order (the blocks passed as arguments are operands, not successors); the same module built through the constructors")
+	if !hx.Mine(1) {
+		return
+	}
+	x := `declare void @g(label)
+declare i32 @__gxx_personality_v0(...)
+define void @f(i1 %c) personality i32 (...)* @__gxx_personality_v0 {
+entry:
+  invoke void @g(label %other) [ "blk"(label %other2), "two"(label %ok, label %lp) ] to label %ok unwind label %lp
+ok:
+  call void @g(label %other2) [ "b"(label %ok, label %other) ]
+  br i1 %c, label %other, label %other2
+other:
+  ret void
+other2:
+  ret void
+lp:
+  %e = landingpad { i8*, i32 } cleanup
+  resume { i8*, i32 } %e
+}
+`
+	pm, err, p := lx.Parse(x)
+	if err != nil || p != nil {
+		hx.Fail(t, test, "ll", x, "the module is not parsed (llvm-as-14 accepts it): %v %s", err, p)
+	}
+	want := map[string][]string{"@f/entry": {"ok", "lp"}, "@f/ok": {"other", "other2"}, "@f/other": {}, "@f/other2": {}, "@f/lp": {}}
+	check := func(m *ir.Module, how string) {
+		for _, f := range m.Funcs {
+			byName := map[string]*ir.Block{}
+			for _, b := range f.Blocks {
+				byName[b.LocalName] = b
+			}
+			slotsDisjoint(t, test, x, f)
+			for bi, b := range f.Blocks {
+				for ii, in := range b.Insts {
+					if u, ok := in.(user); ok {
+						checkUser(t, test, fmt.Sprintf("%s %s %s inst %d", how, f.Ident(), b.Ident(), ii), x, u)
+						hx.Eval(1)
+						hx.NonTrivial(fmt.Sprintf("blockargs/%s/%s/%d/%d", how, f.Ident(), bi, ii))
+					}
+				}
+				if u, ok := b.Term.(user); ok {
+					where := fmt.Sprintf("%s %s %s terminator", how, f.Ident(), b.Ident())
+					checkUser(t, test, where, x, u)
+					var exp []*ir.Block
+					for _, n := range want[f.Ident()+"/"+b.LocalName] {
+						exp = append(exp, byName[n])
+					}
+					checkSuccs(t, test, where, x, b.Term, exp, f)
+					hx.Eval(1)
+				}
+			}
+		}
+	}
+	check(pm, "parsed")
+	// the same through the constructors
+	m := ir.NewModule()
+	g := m.NewFunc("g", types.Void, ir.NewParam("", types.Label))
+	pers := m.NewFunc("__gxx_personality_v0", types.I32)
+	pers.Sig.Variadic = true
+	f := m.NewFunc("f", types.Void, ir.NewParam("c", types.I1))
+	f.Personality = pers
+	entry, ok, other, other2, lp := f.NewBlock("entry"), f.NewBlock("ok"), f.NewBlock("other"), f.NewBlock("other2"), f.NewBlock("lp")
+	inv := entry.NewInvoke(g, []value.Value{other}, ok, lp)
+	inv.OperandBundles = []*ir.OperandBundle{{Tag: "blk", Inputs: []value.Value{other2}}, {Tag: "two", Inputs: []value.Value{ok, lp}}}
+	call := ok.NewCall(g, other2)
+	call.OperandBundles = []*ir.OperandBundle{{Tag: "b", Inputs: []value.Value{ok, other}}}
+	ok.NewCondBr(f.Params[0], other, other2)
+	other.NewRet(nil)
+	other2.NewRet(nil)
+	e := lp.NewLandingPad(types.NewStruct(types.I8Ptr, types.I32))
+	e.Cleanup = true
+	e.SetName("e")
+	lp.NewResume(e)
+	check(m, "constructed")
+}
+
 func TestFuncletCatalogue(t *testing.T) {
 	const test = "FuncletCatalogue"
 	hx.Rule(test, "hand-written module with catchswitch, catchpad, cleanuppad, catchret and cleanupret (both 'unwind to caller' and 'unwind label'): same completeness, liveness and successor oracles; successors are compared with the labels written in the text")
